@@ -268,26 +268,28 @@ STAGES = {
 
 
 def blocked(T, group):
-    """id of the OPEN finding that breaks rendering of T at this site group, or None."""
+    """ids of the OPEN findings that break rendering of T at this site group (a text can sit in several zones at once:
+    multi-line AND ending in three quotes), in the order in which their explanations are tried."""
+    out = []
     ml = '\n' in T
     if ml and any(l != '' and blank(l) for l in T.split('\n')) and group in ('block_notes', 'settings_notes') and F.is_open('F-WSLINE'):
-        return 'F-WSLINE'
+        out.append('F-WSLINE')
     if ml and group == 'settings_notes' and F.is_open('F-MLSET'):
-        return 'F-MLSET'
+        out.append('F-MLSET')
     if ml and group == 'values' and F.is_open('F-MLPROP'):
-        return 'F-MLPROP'
+        out.append('F-MLPROP')
     if ml and group in ('default', 'index_name') and F.is_open('F-MLDEFAULT'):
-        return 'F-MLDEFAULT'
+        out.append('F-MLDEFAULT')
     if "'''" in T and F.is_open('F-TRIPLE'):
         # single-line literals always; triple-quoted ones when the run of quotes touches the end of the text
         # (only the first quote of each ''' is escaped, the remaining two merge with the closing quotes)
         if not (ml and group == 'block_notes') or T.endswith("'''"):
-            return 'F-TRIPLE'
+            out.append('F-TRIPLE')
     if group == 'default' and T.lower() in ('true', 'false', 'null') and F.is_open('F-STRBOOL'):
-        return 'F-STRBOOL'
+        out.append('F-STRBOOL')
     if group == 'default' and T == '' and F.is_open('F-FALSY'):
-        return 'F-FALSY'
-    return None
+        out.append('F-FALSY')
+    return out
 
 
 def normal(T):
@@ -316,7 +318,7 @@ def arm_render(T, case, ctx=None):
                 continue
         elif group == 'index_name' and T == '':
             continue
-        fid = blocked(V, group)
+        fids = blocked(V, group)
         s = schema_with(V, sites)
         for how in ('built', 'parsed'):
             c = dict(case, arm='render', group=group, how=how, value=V)
@@ -331,11 +333,11 @@ def arm_render(T, case, ctx=None):
                 continue
             vs, _ = c02.check_db(db, c, None, s.allow_properties)
             for v in vs:
-                why = fid if fid and any(v.bucket.startswith(p) for p in STAGES[fid]) else None
+                why = next((f for f in fids if any(v.bucket.startswith(p) for p in STAGES[f])), None)
                 viols.append(Viol(f'c13:render:{group}:{v.bucket}', f'text {V!r} at {group} ({how}): {v.message}', c,
                                   finding=why, size=len(T)))
-            if fid and ctx is not None and not vs:
-                ctx.extra[f'zone_clean:{fid}'] = ctx.extra.get(f'zone_clean:{fid}', 0) + 1
+            if fids and ctx is not None and not vs:
+                ctx.extra[f'zone_clean:{fids[0]}'] = ctx.extra.get(f'zone_clean:{fids[0]}', 0) + 1
     return viols
 
 
